@@ -178,7 +178,8 @@ theorem ite_tail {c : Prop} [Decidable c] {P : RowResult → Prop} {res : RowRes
 
 theorem finishRow_sat (T : Tables) (X : ExtTables) (wf : WFRow T X) (k : EanKind) (rn : Int) (row : List Bool)
     (h : Hints) (sg er : Nat × Nat) (result : List Nat) :
-    Sat ReaderErr (fun res => 8 ≤ res.text.length ∧ res.format = k) (finishRow O T X k rn row h sg er result) := by
+    Sat ReaderErr (fun res => 8 ≤ res.text.length ∧ res.format = k ∧ readerAccept k res.text = .ok ())
+      (finishRow O T X k rn row h sg er result) := by
   unfold finishRow
   simp only []
   split
@@ -194,14 +195,15 @@ theorem finishRow_sat (T : Tables) (X : ExtTables) (wf : WFRow T X) (k : EanKind
         simp only []
         have hx := extDecodeRow_sat O T X wf rn row er.2
         cases hxr : extDecodeRow O T X rn row er.2 with
-        | ok x => exact ite_tail ⟨h8, rfl⟩
+        | ok x => exact ite_tail ⟨h8, rfl, har⟩
         | error e =>
           rw [hxr] at hx
-          rcases hx with hx | hx | hx <;> subst hx <;> exact ite_tail ⟨h8, rfl⟩
+          rcases hx with hx | hx | hx <;> subst hx <;> exact ite_tail ⟨h8, rfl, har⟩
 
 theorem decodeWithStart_sat (T : Tables) (X : ExtTables) (wf : WFRow T X) (k : EanKind) (rn : Int) (row : List Bool)
     (h : Hints) (sg : Nat × Nat) :
-    Sat ReaderErr (fun res => 8 ≤ res.text.length ∧ res.format = k) (decodeWithStart O T X k rn row h sg).2 := by
+    Sat ReaderErr (fun res => 8 ≤ res.text.length ∧ res.format = k ∧ readerAccept k res.text = .ok ())
+      (decodeWithStart O T X k rn row h sg).2 := by
   unfold decodeWithStart
   simp only []
   have hm := decodeMiddle_sat O T X wf k row sg.2
@@ -215,40 +217,48 @@ theorem decodeWithStart_sat (T : Tables) (X : ExtTables) (wf : WFRow T X) (k : E
     | error e => rw [her] at he; exact Or.inl he
     | ok endRange => exact finishRow_sat O T X wf k rn row h sg endRange result
 
-theorem maybeReturnResult_sat {r : Res RowResult} (hr : Sat ReaderErr (fun res => 8 ≤ res.text.length) r) :
-    Sat ReaderErr (fun res => 7 ≤ res.text.length ∧ res.format = .upca) (maybeReturnResult r) := by
+/-- the text has passed `checkChecksum` of the reader that owns the format (UPC-A: the EAN-13 test of "0" + text) -/
+def Accepted (k : EanKind) (text : List Nat) : Prop :=
+  readerAccept (if k = .upca then .ean13 else k) (if k = .upca then 48 :: text else text) = .ok ()
+
+theorem maybeReturnResult_sat {r : Res RowResult}
+    (hr : Sat ReaderErr (fun res => 8 ≤ res.text.length ∧ readerAccept .ean13 res.text = .ok ()) r) :
+    Sat ReaderErr (fun res => 7 ≤ res.text.length ∧ res.format = .upca ∧ Accepted .upca res.text) (maybeReturnResult r) := by
   unfold maybeReturnResult
   cases r with
   | error e => exact hr
   | ok res =>
-    have h8 : 8 ≤ res.text.length := hr
+    have h8 : 8 ≤ res.text.length := hr.1
+    have hacc : readerAccept .ean13 res.text = .ok () := hr.2
     simp only []
-    match hres : res.text, h8 with
-    | c :: rest, h8 =>
+    match hres : res.text, h8, hacc with
+    | c :: rest, h8, hacc =>
       simp only []
       split
-      · exact ⟨by simp at h8 ⊢; omega, rfl⟩
+      · rename_i hc
+        subst hc
+        exact ⟨by simp at h8 ⊢; omega, rfl, by simpa [Accepted] using hacc⟩
       · exact Or.inr (Or.inr rfl)
-    | [], h8 => simp at h8
+    | [], h8, _ => simp at h8
 
-/-- what every sub-reader's `decodeRowWithStartRange` delivers: a result of its own format with a text of at least
-    eight (UPC-A: seven) characters, or one of the three reader exceptions -/
 def minLen : EanKind → Nat
   | .upca => 7
   | _ => 8
 
+/-- what every sub-reader's `decodeRowWithStartRange` delivers: a result of its own format with a text of at least
+    eight (UPC-A: seven) characters that has passed the reader's check-digit test, or one of the three reader exceptions -/
 def SubOK (k : EanKind) (r : Res RowResult) : Prop :=
-  Sat ReaderErr (fun res => minLen k ≤ res.text.length ∧ res.format = k) r
+  Sat ReaderErr (fun res => minLen k ≤ res.text.length ∧ res.format = k ∧ Accepted k res.text) r
 
 theorem readerWithStart_sat (T : Tables) (X : ExtTables) (wf : WFRow T X) (k : EanKind) (rn : Int) (row : List Bool)
     (h : Hints) (sg : Nat × Nat) : SubOK k (readerWithStart O T X k rn row h sg).2 := by
   unfold readerWithStart SubOK
   cases k with
   | upca =>
-    exact maybeReturnResult_sat ((decodeWithStart_sat O T X wf .ean13 rn row h sg).mono (fun _ h => h) (fun _ h => h.1))
-  | ean13 => exact decodeWithStart_sat O T X wf .ean13 rn row h sg
-  | ean8 => exact decodeWithStart_sat O T X wf .ean8 rn row h sg
-  | upce => exact decodeWithStart_sat O T X wf .upce rn row h sg
+    exact maybeReturnResult_sat ((decodeWithStart_sat O T X wf .ean13 rn row h sg).mono (fun _ h => h) (fun _ h => ⟨h.1, h.2.2⟩))
+  | ean13 => exact (decodeWithStart_sat O T X wf .ean13 rn row h sg).mono (fun _ h => h) (fun _ h => ⟨h.1, h.2.1, by simpa [Accepted] using h.2.2⟩)
+  | ean8 => exact (decodeWithStart_sat O T X wf .ean8 rn row h sg).mono (fun _ h => h) (fun _ h => ⟨h.1, h.2.1, by simpa [Accepted] using h.2.2⟩)
+  | upce => exact (decodeWithStart_sat O T X wf .upce rn row h sg).mono (fun _ h => h) (fun _ h => ⟨h.1, h.2.1, by simpa [Accepted] using h.2.2⟩)
 
 theorem decodeRow_sat (T : Tables) (X : ExtTables) (wf : WFRow T X) (k : EanKind) (rn : Int) (row : List Bool) (h : Hints) :
     SubOK k (decodeRow O T X k rn row h).2 := by
@@ -265,7 +275,7 @@ theorem minLen_ge (k : EanKind) : 7 ≤ minLen k := by cases k <;> decide
 
 theorem multiLoopA_sat (sub : EanKind → Trace × Res RowResult) (canUPCA : Bool) (hsub : ∀ k, SubOK k (sub k).2) :
     ∀ (ks : List EanKind) (t : Trace),
-      Sat ReaderErr (fun res => 7 ≤ res.text.length) (multiLoopA sub canUPCA ks t).2
+      Sat ReaderErr (fun res => 7 ≤ res.text.length ∧ Accepted res.format res.text) (multiLoopA sub canUPCA ks t).2
   | [], _ => Or.inl rfl
   | k :: ks, t => by
     unfold multiLoopA
@@ -279,7 +289,8 @@ theorem multiLoopA_sat (sub : EanKind → Trace × Res RowResult) (canUPCA : Boo
     | ok res =>
       rw [hr] at hk
       have hm : minLen k ≤ res.text.length := hk.1
-      have hf : res.format = k := hk.2
+      have hf : res.format = k := hk.2.1
+      have hacc : Accepted res.format res.text := by rw [hf]; exact hk.2.2
       have h7 : 7 ≤ res.text.length := Nat.le_trans (minLen_ge k) hm
       simp only []
       split
@@ -287,14 +298,19 @@ theorem multiLoopA_sat (sub : EanKind → Trace × Res RowResult) (canUPCA : Boo
         have h8 : 8 ≤ res.text.length := by
           have : k = .ean13 := by rw [← hf]; exact h13
           subst this; exact hm
-        match hres : res.text, h8 with
-        | c :: rest, h8 =>
+        match hres : res.text, h8, hacc with
+        | c :: rest, h8, hacc =>
           simp only []
           split
-          · show 7 ≤ rest.length
-            simp at h8; omega
-          · show 7 ≤ res.text.length; omega
-        | [], h8 => simp at h8
-      · show 7 ≤ res.text.length; omega
+          · rename_i hc
+            refine ⟨by show 7 ≤ rest.length; simp at h8; omega, ?_⟩
+            show Accepted .upca rest
+            rw [h13] at hacc
+            obtain ⟨hc48, _⟩ := hc
+            subst hc48
+            simpa [Accepted] using hacc
+          · exact ⟨by show 7 ≤ res.text.length; omega, by rw [hres]; exact hacc⟩
+        | [], h8, _ => simp at h8
+      · exact ⟨h7, hacc⟩
 
 end Gzx.Proofs.OneDRowExtTotal
